@@ -70,6 +70,7 @@ class Sidecar:
     contracts: Dict[Tuple[str, str, str], Contract] = field(default_factory=dict)
     insertions: List[Insertion] = field(default_factory=list)
     drops: List[Tuple[str, str, str]] = field(default_factory=list)   # (file, regex, why)
+    canary: bool = False
 
 
 HEADER = re.compile(r'^(fn|trusted fn|spec-only fn|external fn)\s+(\S+)\s*::\s*(.*?)\s*::\s*(\w+)\s*(\[[^\]]*\])?\s*$')
@@ -414,6 +415,13 @@ def gen_file(em: Emitter, repo: str, mod: ModSpec, sc: Sidecar, res: dict, unit_
         body_s = toks[f.sig_end].end
         body_e = toks[f.body_close].start
         body = src[body_s:body_e]
+        if sc.canary:
+            # vacuity canaries: these assertions MUST fail (reachable entry, satisfiable invariants)
+            add_ins(body_s, '\nproof { assert(false); }\n', 'canary:%s' % c.label, {'contract': c.label})
+            for k, lp in enumerate(f.loops):
+                if (k + 1) in c.loops:
+                    add_ins(toks[lp.body_open].end, '\nproof { assert(false); }\n', 'canaryloop%d:%s' % (k + 1, c.label),
+                            {'contract': c.label})
         for p in c.proofs:
             if p.mode == 'start':
                 if p.text.lstrip().startswith('@raw'):
@@ -624,10 +632,7 @@ def add_canary(sig: str) -> str:
 def generate(repo: str, mods: List[ModSpec], sidecar_paths: List[str], prelude_paths: List[str],
              features: List[str], top_extra: str = '', canary: bool = False) -> GenResult:
     sc = parse_sidecar(sidecar_paths)
-    if canary:
-        for c in sc.contracts.values():
-            if c.mode == 'verify':
-                c.sig = add_canary(c.sig)
+    sc.canary = canary
     em = Emitter()
     res = {'under_contract': [], 'external_body': [], 'rewrites': [], 'dropped': [], 'lost_anchors': []}
     head = ''
